@@ -31,6 +31,8 @@ struct FamPlan {
     keep: u8,
     owned: u8,
     huge: bool,
+    /// `alloc_iter_exact`: items the iterator really yields (`len` = what it announces)
+    avail: usize,
 }
 
 #[derive(Debug, PartialEq, Eq)]
@@ -136,7 +138,15 @@ fn gen_family_plan(ctx: &mut Ctx, sc: &dyn ScopeOps, forced: Option<(Fam, FElem)
     // /repo d843bd2 — the panic is injected here like everywhere else, so the defect is reported again if it returns)
     let zst_fill = false;
     let fuse = if !huge && !zst_fill && elem.tracked() && ncb > 0 && ctx.rng.chance(1, 3) { Some(ctx.rng.below(ncb as u64) as usize) } else { None };
-    FamPlan { ep, elem, len, seed, src, fuse, keep: ctx.rng.below(3) as u8, owned: ctx.rng.below(3) as u8, huge }
+    // a lying `ExactSizeIterator`: `alloc_iter_exact` allocates what `len()` announces and stops when the iterator ends
+    // or the capacity is full (over-reporting: the box is a prefix of the block; under-reporting: the surplus stays unread)
+    let mut avail = len;
+    let mut fuse = fuse;
+    if ep == Fam::IterExact && es > 0 && !huge && len > 0 && forced.is_none() && ctx.rng.chance(1, 3) {
+        avail = if ctx.rng.chance(2, 3) { ctx.rng.below(len as u64) as usize } else { len + 1 + ctx.rng.below(3) as usize };
+        fuse = None;
+    }
+    FamPlan { ep, elem, len, seed, src, fuse, keep: ctx.rng.below(3) as u8, owned: ctx.rng.below(3) as u8, huge, avail }
 }
 
 /// (size, align) of the block the call allocates, `None` when the entry point does not touch the allocator
@@ -238,7 +248,7 @@ fn run_family_plan(ctx: &mut Ctx, sc: &mut dyn ScopeOps, p: &FamPlan, entry: u8,
     if p.fuse.is_some() {
         ctx.count("fam:(callback panic injected)");
     }
-    let q = FamReq { ep: p.ep, elem: p.elem, len: if p.ep.is_text() { p.src.len() } else { p.len }, src: &p.src, panicking, entry, keep: p.keep, owned: p.owned, huge: p.huge };
+    let q = FamReq { ep: p.ep, elem: p.elem, len: if p.ep.is_text() { p.src.len() } else { p.len }, src: &p.src, panicking, entry, keep: p.keep, owned: p.owned, huge: p.huge, avail: p.avail };
     debug_assert!(fam_static_has(&q));
     fam_begin(&p.src, p.len, rev, p.fuse);
     let base_calls0 = BASE.with(|b| b.borrow().alloc_calls);
@@ -294,8 +304,11 @@ fn run_family_plan(ctx: &mut Ctx, sc: &mut dyn ScopeOps, p: &FamPlan, entry: u8,
             obs.len = ok.len;
             let want_len = match lay {
                 Some(l) if p.ep.is_text() => l.size(),
-                _ => p.len,
+                _ => p.len.min(p.avail),
             };
+            if p.avail != p.len {
+                ctx.count(if p.avail < p.len { "fam:(alloc_iter_exact, len() over-reports)" } else { "fam:(alloc_iter_exact, len() under-reports)" });
+            }
             if ok.len != want_len {
                 ctx.oracle("C17", format!("FAMILY `{what}` returned {} element(s), the source has {want_len}", ok.len));
             }
@@ -358,6 +371,25 @@ fn run_family_plan(ctx: &mut Ctx, sc: &mut dyn ScopeOps, p: &FamPlan, entry: u8,
                     };
                     // contents: equal to the source (direct), then tracked by the ledger and the model
                     let expected = fam_expected(p, l);
+                    let d_now = sc.x_dump();
+                    let retained = d_now.fwd.iter().any(|c| {
+                        c.content_start <= ok.ptr && ok.ptr + l.size() <= c.content_end && if ctx.up { ok.ptr + l.size() <= c.pos } else { ok.ptr >= c.pos }
+                    });
+                    if p.avail < p.len && !retained {
+                        // (nothing is written there: it is not ours)
+                        ctx.oracle(
+                            "C17",
+                            format!("FAMILY `{what}`: the iterator announced {} elements and yielded {}; the block of the announced length at {:#x} is not (any more) allocated memory of the arena", p.len, ok.len, ok.ptr),
+                        );
+                        let i = ctx.blocks.iter().position(|b| b.id == id).unwrap();
+                        ctx.blocks[i].size = ok.len * es;
+                    } else {
+                    if p.avail < p.len && ok.len <= p.len {
+                        // over-reporting iterator: the box is the prefix of the len()-sized block; the owner fills the
+                        // unused capacity so that the whole block carries the pattern
+                        let from = ok.len * es;
+                        unsafe { std::ptr::copy_nonoverlapping(expected[from..].as_ptr(), (ok.ptr + from) as *mut u8, l.size() - from) };
+                    }
                     fam_check_contents(ctx, &what, ok.ptr, &expected);
                     let is_pattern = expected.iter().enumerate().all(|(k, &b)| b == pattern(p.seed, k));
                     let i = ctx.blocks.iter().position(|b| b.id == id).unwrap();
@@ -370,6 +402,7 @@ fn run_family_plan(ctx: &mut Ctx, sc: &mut dyn ScopeOps, p: &FamPlan, entry: u8,
                         let seed2 = ctx.rng.below(1 << 20);
                         ctx.blocks[i].shadow = fill_block(ok.ptr, l.size(), seed2);
                         log_op(ctx, sc, &format!("write {id} {seed2}"), "unit");
+                    }
                     }
                 }
             }
@@ -484,7 +517,7 @@ fn fam_variants(ctx: &Ctx, p: &FamPlan) -> Vec<(u8, bool)> {
             if panicking && (ctx.fail_injected || p.huge) {
                 continue;
             }
-            let q = FamReq { ep: p.ep, elem: p.elem, len: p.len, src: &p.src, panicking, entry, keep: p.keep, owned: p.owned, huge: p.huge };
+            let q = FamReq { ep: p.ep, elem: p.elem, len: p.len, src: &p.src, panicking, entry, keep: p.keep, owned: p.owned, huge: p.huge, avail: p.avail };
             if fam_static_has(&q) {
                 v.push((entry, panicking));
             }
@@ -551,13 +584,16 @@ fn op_family(ctx: &mut Ctx, sc: &mut dyn ScopeOps) {
     let pick = |ctx: &mut Ctx| if !statics.is_empty() && ctx.rng.chance(1, 2) { *ctx.rng.pick(&statics) } else { *ctx.rng.pick(&vars) };
     let v1 = pick(ctx);
     // ---- C17: the same request through a second entry point from the same state
-    let twin = !ctx.fail_injected && !plan.huge && vars.len() >= 2 && !sc.x_is_claimed() && (probe || ctx.rng.chance(1, 4));
+    let lying = plan.avail != plan.len;
+    let twin = !ctx.fail_injected && !plan.huge && vars.len() >= 2 && !sc.x_is_claimed() && (probe || lying || ctx.rng.chance(1, 4));
     if !twin {
         run_family_plan(ctx, sc, &plan, v1.0, v1.1);
         return;
     }
     let others: Vec<(u8, bool)> = vars.iter().copied().filter(|v| *v != v1).collect();
-    let v2 = *ctx.rng.pick(&others);
+    // a lying iterator: the other twin (panicking vs try_) when there is one
+    let other_twin: Vec<(u8, bool)> = others.iter().copied().filter(|v| v.1 != v1.1).collect();
+    let v2 = if lying && !other_twin.is_empty() { *ctx.rng.pick(&other_twin) } else { *ctx.rng.pick(&others) };
     ctx.count("fam:(two entry points from one state)");
     let key = ctx.next_key;
     ctx.next_key += 1;
